@@ -36,12 +36,26 @@ impl<S: Storage> TableScanExecutor<S> {
             col_idx.push(StorageColumnRef::RowHandler);
         }
 
+        // The planner assumes that a scan of the on-disk engine which includes the primary key
+        // returns rows in key order: ask the storage for a sorted (merged) scan in that case.
+        let sorted = self.storage.as_disk().is_some() && {
+            let catalog = self.storage.get_catalog();
+            let pks = catalog
+                .get_table(&self.table_id)
+                .map(|t| t.primary_keys())
+                .unwrap_or_default();
+            !pks.is_empty()
+                && (pks.iter()).all(|id| self.columns.iter().any(|c| c.column_id == *id))
+        };
+
         let txn = table.read().await?;
 
         let mut it = txn
             .scan(
                 &col_idx,
-                ScanOptions::default().with_filter_opt(self.filter),
+                ScanOptions::default()
+                    .with_filter_opt(self.filter)
+                    .with_sorted(sorted),
             )
             .await?;
 
